@@ -7,6 +7,9 @@
      at every callback run:  the event is pending, the reading that released it is >= its due time, and no other pending
      event has an earlier due time;  afterwards it is pending again iff it repeats and returned true, due = reading + interval;
      after clear() nothing is pending, so any run is a violation.
+   Premise of the concurrent-clear argument (another thread's clear() can only take effect between passes): checked as an
+     obligation - every callback runs while the timer's spin lock is held, and whenever the loop releases the lock the
+     queue already equals the monitor's pending set (so pop, callback and re-queue all lie inside one critical section).
    MODE 0: the loop runs from the freshly scheduled queue for STEPS readings/sleeps (bounded history).
    MODE 1: inductive step.  Invariant Inv: the queue's vector is heap-ordered by due time and holds exactly the monitor's
      pending events (id, due, interval, repeat).  The NEV schedule calls at symbolic readings produce every Inv state of
@@ -53,9 +56,11 @@ uint32_t st_hypersleep(uint32_t ms) { n_sleep++; tick(); return 0; }
 void st_thread_ctor(void *thr, void *timer, uint64_t a, uint64_t b, uint64_t c, uint64_t d) { }
 /* ---- the monitor */
 static uint8_t pending[3]; static int64_t due[3]; static int nruns, cleared, bad_early, bad_order, bad_notpending, bad_after_clear;
+static uint32_t *g_lock; static int bad_cb_unlocked, bad_unlock_state;      /* the timer's _spin_lock as seen by the pthread_spin model */
 uint8_t x_vf_cb(uint32_t id)
 {
   uint8_t res = nondet_bool();
+  if (!(g_lock && *g_lock == 1)) bad_cb_unlocked = 1;           /* the callback must run inside the critical section */
   if (!pending[id]) { bad_notpending = 1; if (cleared) bad_after_clear = 1; }
   else {
     if (g_now < due[id]) bad_early = 1;
@@ -78,9 +83,16 @@ uint32_t x_pthread_spin_lock(uint32_t *l)
     cleared = 1; in_clear = 0;
   }
 #endif
-  __CPROVER_assert(*l == 0, "C31: the lock is free when taken (sequential schedule)"); *l = 1; return 0;
+  __CPROVER_assert(*l == 0, "C31: the lock is free when taken (sequential schedule)"); *l = 1; g_lock = l; return 0;
 }
-uint32_t x_pthread_spin_unlock(uint32_t *l) { *l = 0; return 0; }
+uint32_t x_pthread_spin_unlock(uint32_t *l)
+{
+  if (in_run && !in_clear) {          /* the loop leaves its critical section: pop, callback and re-queue must all be done */
+    int np = 0; for (int j = 0; j < NEV; j++) np += pending[j];
+    if (vf_tm_pending(&the_timer) != (uint64_t)np) bad_unlock_state = 1;
+  }
+  *l = 0; return 0;
+}
 /* ---- operator new: vector growth asks for 1, 2 or 4 events; every heap object has a constant size */
 #define EVSZ 32
 uint8_t *x__Znwm(uint64_t n)
@@ -138,6 +150,7 @@ int main(void)
   VF_ASSERT(!bad_after_clear, "C31: no callback runs after clear()");
   VF_ASSERT(!bad_notpending, "C31: only pending events run (a one-shot or a repeat that returned false never runs again)");
   VF_ASSERT(!cx_bad, "C31: clear() returns the number of events that were waiting");
+  VF_ASSERT(!bad_cb_unlocked && !bad_unlock_state, "C31: callback and re-arm run inside the timer's critical section (premise of the concurrent-clear argument)");
   int np = 0; for (int j = 0; j < NEV; j++) np += pending[j];
   VF_ASSERT(vf_tm_pending(&the_timer) == (uint64_t)np, "C31: the queue holds exactly the pending events");
 #if MODE == 1
